@@ -454,24 +454,30 @@ func (s *Service) writeToBatcher() {
 				// Channel closed, exiting goroutine.
 				return
 			}
-			if o.Index != 0 && o.Index <= s.highWatermark.Load() {
-				// High watermark has advanced since we processed these CDC events.
-				// This could happen on followers if the Leader has advanced the HWM
-				// but this node hasn't even had the event generated by its underlying
-				// database yet.
-				stats.Add(numBatcherWriteIgnored, 1)
-				continue
-			}
-			if _, err := s.batcher.WriteOne(o, nil); err != nil {
-				s.logger.Printf("error writing CDC events to batcher: %v", err)
-			} else {
-				s.writesToBatcher.Add(1)
-				stats.Add(numBatcherWrites, 1)
-				stats.Add(numBatcherEventsWrite, int64(len(o.Events)))
-			}
+			s.writeEventsToBatcher(o)
 
 		case ch := <-s.snapshotCh:
 			stats.Add(numSnapshotSync, 1)
+
+			// Events handed to this service before the snapshot was requested may still be
+			// waiting in the input channel: when both channels are ready, select picks either.
+			// Those events must reach the FIFO before the snapshot proceeds too, so write
+			// them to the batcher ahead of the flush marker.
+			for drained := false; !drained; {
+				select {
+				case o := <-s.in:
+					if o == nil {
+						// Channel closed, nothing more can arrive. The outer loop will
+						// see that too, once this snapshot request has been answered.
+						drained = true
+					} else {
+						s.writeEventsToBatcher(o)
+					}
+				default:
+					drained = true
+				}
+			}
+
 			evg := &proto.CDCIndexedEventGroup{
 				Flush: true,
 			}
@@ -490,6 +496,26 @@ func (s *Service) writeToBatcher() {
 		case <-s.done:
 			return
 		}
+	}
+}
+
+// writeEventsToBatcher writes the events of one group to the internal batcher, unless the
+// high watermark shows that they have been sent to the webhook already.
+func (s *Service) writeEventsToBatcher(o *proto.CDCIndexedEventGroup) {
+	if o.Index != 0 && o.Index <= s.highWatermark.Load() {
+		// High watermark has advanced since we processed these CDC events.
+		// This could happen on followers if the Leader has advanced the HWM
+		// but this node hasn't even had the event generated by its underlying
+		// database yet.
+		stats.Add(numBatcherWriteIgnored, 1)
+		return
+	}
+	if _, err := s.batcher.WriteOne(o, nil); err != nil {
+		s.logger.Printf("error writing CDC events to batcher: %v", err)
+	} else {
+		s.writesToBatcher.Add(1)
+		stats.Add(numBatcherWrites, 1)
+		stats.Add(numBatcherEventsWrite, int64(len(o.Events)))
 	}
 }
 
